@@ -434,7 +434,8 @@ class Unit:
                 )
         elif self.dimensions is logarithmic and not u.is_dimensionless:
             raise InvalidUnitOperation(f"Tried to divide '{self}' and '{u}'.")
-        elif u.dimensions is logarithmic and not self.is_dimensionless:
+        elif u.dimensions is logarithmic:
+            # also for a dimensionless numerator: 1/dB is dB**-1, which is refused
             raise InvalidUnitOperation(f"Tried to divide '{self}' and '{u}'.")
 
         base_offset = 0.0
